@@ -44,6 +44,7 @@ type inode struct {
 	dents  map[string]*inode // durable entries
 	target string
 	mtime  time.Time
+	gone   bool // directory unlinked while handles may still be open
 }
 
 // pending (not yet durable) directory operation
@@ -161,6 +162,7 @@ type resolved struct {
 	node   *inode // nil if the last component does not exist
 	real   string // real path of parent + "/" + name
 	lex    string
+	atLast bool // the error arose while looking at the last component
 }
 
 func cleanAbs(cwd, p string) string {
@@ -259,6 +261,7 @@ func (f *FS) walk(abs string, followLast bool, depth int, lex string) (resolved,
 			return r, syscall.EACCES
 		}
 		if len(c) > 255 {
+			r.atLast = last
 			return r, syscall.ENAMETOOLONG
 		}
 		if c == "." {
